@@ -586,6 +586,26 @@ def lift_block(blk, log, meta, canary=False):
             if start is None:
                 raise LiftError(f"{src.rel}: `let {a.get('after_let') or a.get('from_let')}` not found in fn `{a['fn']}`")
             lo, hi = start, fi.close_idx
+            if a.get('until_let'):
+                # range lift: stop right before the statement `let [mut] <until_let> ...`
+                end = None
+                i = start
+                while i < fi.close_idx:
+                    t = sig[i]
+                    if t.kind == 'p' and t.text in '([{':
+                        i = t.mate + 1
+                        continue
+                    if t.kind == 'id' and t.text == 'let':
+                        j = i + 1
+                        if sig[j].text == 'mut':
+                            j += 1
+                        if sig[j].text == a['until_let']:
+                            end = i
+                            break
+                    i += 1
+                if end is None:
+                    raise LiftError(f"{src.rel}: `let {a['until_let']}` not found after the start of the lifted range")
+                hi = end
         else:
             k = int(a['index'])
             if k >= len(loops):
@@ -639,6 +659,8 @@ def lift_block(blk, log, meta, canary=False):
             if m_.get('at') == 'fn_start':
                 segs.append(Seg((txt + '\n') if m_.get('_raw') else ('proof {\n' + txt + '\n}\n'), tag='proof'))
         segs.extend(ed.render())
+        if a.get('tail_expr'):
+            segs.append(Seg('\n' + a['tail_expr'] + '\n', tag='R5'))
         segs.append(Seg('\n}\n', tag='R5'))
     segs.extend(outline_segs)
     segs.append(Seg('\n', tag='sep'))
